@@ -244,6 +244,19 @@ def script_s(draw):
         return pbpost()
 
     posts = [post() for _ in range(draw(st.sampled_from([1, 1, 2, 2, 3, 4, 6])))]
+    # related constraints in the same manager: a later inequality that is a sub-problem of an earlier one (the earlier one
+    # without its largest term, with the bound unchanged or reduced by that coefficient) shares decision-diagram nodes with it
+    if draw(_i(0, 2)) == 0:
+        pbs = [p for p in posts if p[0] == "pb" and len(p[1]) >= 2]
+        if pbs:
+            base = pbs[draw(_i(0, len(pbs) - 1))]
+            terms = sorted(base[1], key=lambda t: -abs(t[0]))
+            big = terms[0]
+            rest = [list(t) for t in terms[1:]]
+            bound = base[3] if draw(st.booleans()) else base[3] - (big[0] if big[2] else 0)
+            derived = ["pb", rest, base[2], bound, base[4] if draw(_i(0, 3)) else not base[4]]
+            pos = draw(_i(0, len(posts)))
+            posts.insert(pos, derived)
     history = []
     for _ in range(draw(st.sampled_from([0, 0, 1, 2, 4]))):
         hn = 7
